@@ -613,8 +613,49 @@ def oracle_violations(node, rng):
     return out
 
 
+def direct_violations():
+    """two fixed real-code oracles that random trees seldom hit: (i) `Partial` with a STRIDED or reversed slice changes exactly the indexed
+    entries (reference: NumPy assignment); (ii) `merge_chains` / `merge_transforms` on a chain that contains an inverted chain of
+    non-commuting children never changes the four methods"""
+    import flowjax.bijections as B
+    wit = []
+    a = B.Affine(jnp.asarray([0.5, -1.0, 2.0]), jnp.asarray([2.0, 0.5, 3.0]))
+    x = jnp.asarray([0.3, -1.2, 0.8, 2.0, -0.4, 1.1])
+    for name, sl in (("slice(0,None,2)", slice(0, None, 2)), ("slice(1,6,2)", slice(1, 6, 2)), ("slice(5,None,-2)", slice(5, None, -2))):
+        try:
+            p = B.Partial(a, sl, (6,))
+            want = np.asarray(x).copy()
+            want[sl] = np.asarray(a.transform(x[sl]))
+            for meth, got in (("transform", p.transform(x)), ("transform_and_log_det", p.transform_and_log_det(x)[0])):
+                if not np.allclose(np.asarray(got), want, rtol=1e-12, atol=0):
+                    wit.append(dict(key=f"partial-strided|{name}|{meth}", kind="direct", law="Partial changes only the indexed entries (strided slice)", got=np.asarray(got).tolist(), want=want.tolist()))
+            back = np.asarray(p.inverse(p.transform(x)))
+            if not np.allclose(back, np.asarray(x), rtol=1e-12, atol=1e-12):
+                wit.append(dict(key=f"partial-strided|{name}|roundtrip", kind="direct", law="Partial.inverse undoes Partial.transform (strided slice)", got=back.tolist(), want=np.asarray(x).tolist()))
+        except Exception as ex:  # noqa: BLE001
+            wit.append(dict(key=f"partial-strided|{name}|exception", kind="direct", law="Partial accepts a strided slice", exc=repr(ex)[:160]))
+    s1, s2 = B.Affine(jnp.asarray(0.7), jnp.asarray(1.5)), B.Exp()
+    t = B.Chain([B.Affine(jnp.asarray(-0.2), jnp.asarray(0.8)), B.Invert(B.Chain([s1, s2])), B.Chain([B.Affine(jnp.asarray(1.0), jnp.asarray(2.0))])])
+    m = t.merge_chains()
+    for v in (0.4, 1.7, 3.0):
+        xv = jnp.asarray(v)
+        for meth in ("transform", "inverse"):
+            try:
+                g, w_ = float(getattr(m, meth)(xv)), float(getattr(t, meth)(xv))
+                g2, w2 = getattr(m, meth + "_and_log_det")(xv), getattr(t, meth + "_and_log_det")(xv)
+                ok = vlib.close(g, w_, rtol=1e-9, atol=1e-10) and vlib.close(float(g2[0]), float(w2[0]), rtol=1e-9, atol=1e-10) and vlib.close(float(g2[1]), float(w2[1]), rtol=1e-9, atol=1e-10)
+            except Exception as ex:  # noqa: BLE001
+                ok, g, w_ = False, repr(ex)[:80], None
+            if not ok:
+                wit.append(dict(key=f"merge_chains-inverted-chain|{meth}|x={v}", kind="direct", law="merge_chains never changes the function (chain containing Invert(Chain[...]))", got=g, want=w_))
+    return wit
+
+
 def search(hints, tier, rng):
     wit = []
+    wit += direct_violations()
+    if wit:
+        return wit[:5]
     from props import flows
     wit += flows.search_flows(tier, rng)      # structure of factory-built flows, Scan vs Chain of its unstacked layers
     if len(wit) >= 5:
@@ -660,4 +701,6 @@ def search(hints, tier, rng):
 
 def replay(w):
     import random
+    if w.get("kind") == "direct":
+        return any(x["key"] == w["key"] for x in direct_violations())
     return bool(search({}, "quick", random.Random(1)))
